@@ -45,17 +45,43 @@ CHECK = Check(
         "Surm: fractions bfac, dseep, fimp, rfac in [0,1], coeff, fcFrac, thres >= 0, smax >= 10 mm (for smax < 10 "
         "the ET term min(10 sms/smax, pet) exceeds the store: reported as an observation)",
         "Simhyd: coefficients in [0,1], thresholds/capacities >= 0, soil moisture store capacity > 0",
-        "GR4J: x1, x3, x4 > 0; unit-hydrograph vectors of the lengths chosen by initGR4J; x2 <= 0 for the budget "
-        "(a positive exchange coefficient imports groundwater by design); x2 = 0 and PET = 0 for the closed balance",
-        "Sacramento (partial): sarva >= 0, PET >= 0 for the channel stage; uh1..uh5 >= 0 with positive sum",
+        "GR4J: x1, x3, x4 > 0 (RR.GR4J.ParamsOk); state within RR.GR4J.Inv (0 <= S <= x1, 0 <= R <= x3, unit-hydrograph "
+        "stores >= 0 and of lengths ceil(x4) / ceil(2 x4) — the lengths model.run reads from the state row written by "
+        "InitialiseStates: gr4j_model_run_init, gr4j_model_run_chain); x2 <= 0 for 'no water created' "
+        "(gr4j_budget, gr4j_no_water_created); x2 = 0 and PET = 0 for the closed balance. For x2 > 0 (documented range "
+        "up to 5) 'never create water' is FALSE for GR4J — the published model imports groundwater through the exchange "
+        "term ech = x2 (R/x3)^3.5 (gr4j_positive_x2_creates_water: +2 ech on every dry day with R > 0; "
+        "gr4j_positive_x2_counterexample: 5 mm of runoff from 1 mm held and no rain at x2 = 5, x3 = 1); what is proved for "
+        "EVERY x2 is the budget with the import on the right-hand side: sum runoff + held <= sum rain + held_0 + "
+        "sum 2 max(0, ech_t) (gr4j_budget_exchange, gr4j_no_water_created_exchange; exact for x2 >= 0 and PET = 0: "
+        "gr4j_closed_balance_exchange), and the invariant / non-negativity (gr4j_invariant, any x2)",
+        "Sacramento (OW.Props.C10Sacramento; RR.Sac.ParamsOk, OW/Proofs/SacramentoInvInc.lean:60): uztwm, uzfwm, lzfsm, "
+        "lzfpm > 0; 5 <= lztwm (mm; cannot be dropped: sacramento_small_lztwm_counterexample, lztwm = 0.1 inside the "
+        "OW-SPEC range [0,300]); lzpk, lzsk, uzk, pfree, rserv in [0,1]; pctim, adimp >= 0 with pctim + adimp <= 1; "
+        "side, ssout, sarva, zperc >= 0; uh1..uh5 >= 0 with positive sum; NO condition on rexp",
+        "Sacramento inputs (InOk): rain >= 0 and 0 <= PET <= uztwm + lztwm for the invariant, e1..e4 >= 0 and the budget; "
+        "for e5 >= 0 and reported actual ET >= 0 additionally PET * uzfwm <= lztwm * (uztwm + uzfwm) (InOkPet; implied by "
+        "PET <= lztwm; cannot be dropped: sacramento_negative_aet_counterexample, known finding "
+        "KF-C10-Sacramento-negative-aet)",
+        "Sacramento initial state: the model's own (all stores empty) or any state row within RowInv: every store in "
+        "[0, capacity], plus RowInv.u: uzfwc * uztwm <= uztwc * uzfwm (the free store is relatively no fuller than the "
+        "tension store; part of the invariant SacInv that every step keeps) and RowInv.a1: adimc - uztwc <= 5/4 lztwm; "
+        "the unit-hydrograph buffer of a call starts empty (the code's local `qq`; water still in it at the end of a call "
+        "is dropped, known finding KF-C06-Sacramento-uh-buffer)",
+        "Sacramento store bound proved for the additional impervious store: adimc <= uztwm + 5/4 lztwm "
+        "(sacramento_store_bounds); the nominal capacity adimc <= uztwm + lztwm only for lztwm >= 10 "
+        "(sacramento_adimc_capacity) — for 5 <= lztwm < 10 the CODE exceeds it (uztwm 1, lztwm 5, uzk 1, rain "
+        "[3.5, 0, 4.9] from empty: 7.175 > 6), recorded as an observation",
         "rainfall, PET >= 0; initial state = the model's own or any state within the invariant",
     ],
     partial=[
-        "sacramento_bounds_partial: only the channel stage (runoff, baseflow, e4 >= 0) is proved; the store bounds, "
-        "non-negativity of surfaceRunoff / imperviousRunoff / e1,e2,e3,e5 and the water budget "
-        "(sacramento_invariant, sacramento_no_water_created, stated in full in OW/Props/C10.lean) need an invariant "
-        "through the drainage-and-percolation loop (15 coupled updates x ninc passes x 2 per day) and are covered "
-        "by the implementation oracle only",
+        "GR4J 'never create water' for x2 > 0: false for the code and for the published model (water imported by the "
+        "exchange term); replaced by gr4j_budget_exchange / gr4j_no_water_created_exchange (import on the right-hand "
+        "side) with gr4j_positive_x2_creates_water and gr4j_positive_x2_counterexample as the proved refutation",
+        "Sacramento outside ParamsOk / InOk (lztwm < 5 mm, PET > uztwm + lztwm, state rows violating RowInv.u / RowInv.a1): "
+        "no theorem — two proved counter-examples show the statement is false there; generated cases in that region are "
+        "covered by the implementation oracle only",
+        "GR4J and Sacramento are not restated under rounding (OW.Props.Rounded.C10 covers RunoffCoefficient, Surm, Simhyd)",
     ],
 )
 
